@@ -33,6 +33,11 @@ class Gen:
         self.excl = excl
         self.loose_strings = False     # a '#' can see already-expanded material
         self.ninv = 0
+        # D27 (recorded) is excluded per program: either no macro ever uses `, ## __VA_ARGS__`, or (one program in four) such macros
+        # may appear and then, from the first line on, no macro is ever redefined, and every variable argument is non-empty and
+        # consists of plain tokens only (no macro names, no identifiers that could be parameters of an enclosing macro)
+        self.comma_paste_program = ch.int(0, 3) == 0
+        self.param_body_mentions_macro = False
 
     def sp(self):
         return self.ch.choice([' ', ' ', ' ', '  ', ''])
@@ -64,8 +69,8 @@ class Gen:
                     mm = self.macs[m]
                     if mm.kind == 'f' and ch.int(0, 9) < 7:
                         out.append(self.call_args(mm, params, depth=0, inbody=True))
-                        if mm.has_hash and params:
-                            self.loose_strings = True
+                if params:
+                    self.param_body_mentions_macro = True
             elif r < 68:
                 if not fn:
                     # object-like macro: ## between two literal tokens
@@ -100,8 +105,10 @@ class Gen:
                 out.append(vname)
             elif k < 6:
                 out.append('# ' + vname); has_hash = True; self.feat.add('#va')
-            elif k < 8:
+            elif k < 8 and self.comma_paste_program:
                 out.append(', ## ' + vname); self.feat.add(',##va')
+            elif k < 8:
+                out.append(vname)
             elif va != '...':
                 out.append(vname)
             else:
@@ -114,6 +121,11 @@ class Gen:
     def define(self):
         ch = self.ch
         name = ch.choice(MAC)
+        if name in self.macs and self.comma_paste_program:
+            free = [m for m in MAC if m not in self.macs]
+            if not free:
+                return
+            name = ch.choice(free)
         if name in self.macs:
             # redefinition needs an #undef first unless identical; emit #undef
             self.lines.append('#undef %s' % name)
@@ -178,7 +190,7 @@ class Gen:
         args = [self.arg(depth, m, p, extra) for p in m.params]
         if m.va:
             k = ch.int(0, 9)
-            comma_paste = ',##va' in self.feat
+            comma_paste = self.comma_paste_program
             if k < 2 and m.params:
                 self.feat.add('va-absent')          # F(a) for F(x,...)
             else:
@@ -190,7 +202,7 @@ class Gen:
                         # D27 (recorded): the operand of `, ## __VA_ARGS__` is macro-expanded first: once such a macro exists in
                         # the program, variable arguments carry no macro names (they can be forwarded to it)
                         self.excl['D27'] = self.excl.get('D27', 0) + 1
-                        a = ' '.join(ch.choice(PLAIN[:6] + IDS) for _ in range(ch.int(1, 2)))
+                        a = ' '.join(ch.choice(['1', '2', '+', '-', '*', '"s"', '.5', '<']) for _ in range(ch.int(1, 2)))
                     vas.append(a)
                 args += vas
         if not m.params and not m.va:
@@ -220,7 +232,7 @@ class Gen:
             self.lines.append('#define OBJ 1'); self.macs['OBJ'] = M('OBJ', 'o')
         for k in range(ch.int(1, 4)):
             self.lines.append('[ %s ] %s %s' % (self.inv(2), ch.choice(PLAIN), ch.choice(sorted(self.macs) + IDS)))
-            if ch.int(0, 11) == 0:
+            if ch.int(0, 11) == 0 and not self.comma_paste_program:
                 # an object-like macro with an empty replacement list whose directive is followed by a line starting with '('
                 name = ch.choice(MAC)
                 if name in self.macs:
@@ -231,13 +243,19 @@ class Gen:
                 self.feat.add('empty-objlike-then-paren-line')
             if ch.int(0, 5) == 0:
                 # history: redefine / undef between invocations
-                if ch.bool() and self.macs:
+                if ch.bool() and self.macs and not self.comma_paste_program:
                     u = ch.choice(sorted(self.macs))
                     self.lines.append('#undef %s' % u)
                     del self.macs[u]
                     self.feat.add('undef')
                 self.define()
-        return '\n'.join(self.lines) + '\n'
+        src = '\n'.join(self.lines) + '\n'
+        # A '#' can see already-expanded material whenever some macro stringizes and some macro with parameters has a macro name in
+        # its replacement list (directly or through any chain, an argument of the stringizing macro can then come from a parameter).
+        import re
+        any_hash = any(re.search(r'(^|[^#])#($|[^#])', l.split(None, 2)[2] if len(l.split(None, 2)) > 2 else '') for l in self.lines if l.startswith('#define'))
+        self.loose_strings = bool(any_hash and self.param_body_mentions_macro)
+        return src
 
 
 class C09:
@@ -249,9 +267,9 @@ class C09:
             'lexer); preprocessing must finish within 10 s (confirmed 3x). non-trivial = nested expansion, # or ## with an empty or multi-token operand, recursive reference, '
             'variadic form or multi-line invocation; distinct by program text.')
     assumptions = ['gcc -E -P and clang -E -P (gnu11) agree on the token sequence; inputs either reference rejects are discarded (counted)',
-                   'string literals produced by # are compared exactly, spacing included, whenever gcc and clang agree exactly; when the two references differ only in the spacing inside such a literal the case is compared modulo that spacing',
+                   'string literals produced by # are compared exactly when the operand is spelled in the invocation itself; when a macro that stringizes is invoked from the body of a macro with parameters (its operand can consist of already-expanded material, whose spacing 6.10.3.2p2 does not fix) the literals of that program are compared modulo white space',
                    'D56 (-E rejects pp-numbers that are not valid constants) excluded by its diagnostic when ## on forwarded arguments forms such a number (counted)',
-                   'recorded findings excluded by construction: D25 (two possibly-empty ## operands / placemarker chains), D27 (`, ## __VA_ARGS__`: operand macro-expanded first, comma dropped for a present-but-empty variable argument): variable arguments are never empty, and carry no macro names once a comma-paste macro exists']
+                   'recorded findings excluded by construction: D25 (two possibly-empty ## operands / placemarker chains), D27 (`, ## __VA_ARGS__`: operand macro-expanded first, comma dropped for a present-but-empty variable argument): decided per program: in a program that may use `, ## __VA_ARGS__` no macro is redefined and every variable argument is non-empty and made of plain tokens only']
     excl = {'D56': 0, 'D27': 0}
 
     def budget(self, tier):
@@ -278,7 +296,7 @@ class C09:
                     return
                 loose = True
             else:
-                loose = False          # gcc and clang agree to the byte, spacing inside string literals included: compare strictly
+                loose = g.loose_strings   # spacing inside a stringized literal is compared exactly only where 6.10.3.2p2 fixes it: operands spelled in the invocation itself
             rx, tx, ex, tox, raw = pptok.cpp(ctx.tree, 'chibicc', p, timeout=10)
             nt = core.shash(src) if (g.feat & {'nested-call', '#', '##', 'raw-macro-name', 'variadic', 'multi-line-invocation', 'empty-arg', '#va', ',##va', '__VA_OPT__', 'redefine', 'undef'}) else None
             for f in g.feat:
